@@ -8,7 +8,8 @@
   Proofs: `Proofs/SshPoolOwn.lean`, `SshPoolProofs.lean`, `SshPoolLive.lean`, `SshPoolResults.lean`.
   Regenerated obligations: `Properties/C14SshPoolGen.lean`.
 -/
-import Desync.Proofs.SshPoolResults
+import Desync.Proofs.SshPoolHonest
+import Desync.Properties.C14
 
 namespace Desync.C14
 open Desync Desync.SshPool
@@ -131,6 +132,129 @@ theorem halfBuilt_close_blocks :
   refine ⟨_, rfl, by decide, by decide, ?_⟩
   intro e he
   cases e <;> simp_all [Ev.isCaller] <;> rename_i c <;> (by_cases hc : c = 0 <;> simp [step, run, halfBuilt, init, upd, hc])
+
+/-! ### honest servers: a caller's result is the reply to ITS OWN request -/
+
+/-- **own reply** — servers that answer a request with `Serve`'s switch (completely, or cut short after any
+    number of bytes and then dead), or exit at any moment; any number of callers and sessions, any interleaving,
+    sessions re-used after failed requests: what a caller holds after `RequestChunk`, and what its call returns,
+    is the verdict on the store's answer for THE ID IT ASKED FOR, or a transport failure (`ReadMessage` failed /
+    the request could not be written) — never anything derived from another caller's request -/
+theorem pool_own_reply (E : PS.Env) (hz : PS.ZstdOk E) (ops : List Op)
+    (hids : ∀ c id, opId ops c = some id → id.length = 32) (n : Nat) (s : State)
+    (h : HReachable E ops (init n) s) (c : Nat) (op : Op) (id : Bytes) (hop : ops[c]? = some op) (hid : op.id? = some id) :
+    (∀ i r, s.pc c = .back i r → Good E id r) ∧ (∀ o, s.pc c = .done o → ∃ r, Good E id r ∧ o = outOf op r) :=
+  (hreachable_all hz hids h).hinv.res c op id hop hid
+
+/-- what `Good` says, case by case: "missing" only when the store says missing; a chunk only when it is the
+    store's chunk for this id, verified; and a chunk the store holds intact is never reported missing -/
+theorem good_cases (E : PS.Env) (id : Bytes) (r : PS.CRes) (hg : Good E id r) :
+    (r = .missing → E.store id = .missing) ∧
+    (∀ ch, r = .ok ch → ∃ c b, E.store id = .chunk c ∧ (c.getData E.z.dec).1 = some b ∧ E.H b = id ∧ ch.data = b) ∧
+    (E.store id = .missing → r = .missing ∨ (∃ e, r = .fail (.read e)) ∨ r = .fail .send) := by
+  unfold Good PS.verdict at hg
+  refine ⟨fun hr => ?_, fun ch hr => ?_, fun hst => ?_⟩
+  · subst hr
+    rcases hg with hg | ⟨e, hg⟩ | hg
+    · cases hst : E.store id with
+      | missing => rfl
+      | failure => rw [hst] at hg; cases hg
+      | chunk c =>
+        rw [hst] at hg
+        simp only at hg
+        cases hd : (c.getData E.z.dec).1 with
+        | none => rw [hd] at hg; cases hg
+        | some b => rw [hd] at hg; simp only at hg; split at hg <;> cases hg
+    · cases hg
+    · cases hg
+  · subst hr
+    rcases hg with hg | ⟨e, hg⟩ | hg
+    · cases hst : E.store id with
+      | missing => rw [hst] at hg; cases hg
+      | failure => rw [hst] at hg; cases hg
+      | chunk c =>
+        rw [hst] at hg
+        simp only at hg
+        cases hd : (c.getData E.z.dec).1 with
+        | none => rw [hd] at hg; cases hg
+        | some b =>
+          rw [hd] at hg; simp only at hg
+          split at hg
+          · rename_i hH
+            injection hg with hg; injection hg with hg; subst hg
+            exact ⟨c, b, rfl, hd, hH, rfl⟩
+          · cases hg
+    · cases hg
+    · cases hg
+  · rcases hg with hg | hg | hg
+    · rw [hst] at hg; injection hg with hg; exact Or.inl hg.symm
+    · exact Or.inr (Or.inl hg)
+    · exact Or.inr (Or.inr hg)
+
+/-- **missing is reported truthfully through the pool** (honest servers): a `GetChunk` that returns
+    `ChunkMissing` asked for an id the store does not have -/
+theorem pool_missing_truthful (E : PS.Env) (hz : PS.ZstdOk E) (ops : List Op)
+    (hids : ∀ c id, opId ops c = some id → id.length = 32) (n : Nat) (s : State)
+    (h : HReachable E ops (init n) s) (c : Nat) (id : Bytes) (hop : ops[c]? = some (.get id))
+    (hd : s.pc c = .done (.chunk .missing)) : E.store id = .missing := by
+  obtain ⟨r, hg, ho⟩ := (pool_own_reply E hz ops hids n s h c (.get id) id hop rfl).2 _ hd
+  have : r = .missing := by cases r <;> simp [outOf] at ho <;> first | rfl | (injection ho)
+  exact (good_cases E id r hg).1 this
+
+/-- **HasChunk is truthful through the pool** (honest servers): `true` only for a chunk the store holds and
+    that hashes to the id; `(false, nil)` only when the store says missing; everything else is an error -/
+theorem pool_has_truthful (E : PS.Env) (hz : PS.ZstdOk E) (ops : List Op)
+    (hids : ∀ c id, opId ops c = some id → id.length = 32) (n : Nat) (s : State)
+    (h : HReachable E ops (init n) s) (c : Nat) (id : Bytes) (hop : ops[c]? = some (.has id)) (p : Bool)
+    (err : Option PS.End) (hd : s.pc c = .done (.has p err)) :
+    (p = true → ∃ c b, E.store id = .chunk c ∧ (c.getData E.z.dec).1 = some b ∧ E.H b = id) ∧
+    (p = false → err = none → E.store id = .missing) := by
+  obtain ⟨r, hg, ho⟩ := (pool_own_reply E hz ops hids n s h c (.has id) id hop rfl).2 _ hd
+  have hc := good_cases E id r hg
+  cases r with
+  | ok ch =>
+    simp only [outOf] at ho; injection ho with h1 h2; subst h1
+    refine ⟨fun _ => ?_, fun hp => by cases hp⟩
+    obtain ⟨c', b, h1, h2, h3, _⟩ := hc.2.1 ch rfl
+    exact ⟨c', b, h1, h2, h3⟩
+  | missing =>
+    simp only [outOf] at ho; injection ho with h1 h2; subst h1
+    exact ⟨fun hp => (by cases hp), fun _ _ => hc.1 rfl⟩
+  | fail e =>
+    simp only [outOf] at ho; injection ho with h1 h2; subst h1; subst h2
+    exact ⟨fun hp => (by cases hp), fun _ he => (by cases he)⟩
+
+/-- non-vacuity (honest): two callers share ONE session; the first asks for a chunk the store has and gets it,
+    the second asks for one it does not have, on the same session afterwards, and is told "missing" -/
+example : ∃ s, HReachable exEnv [.get (PS.fit32 [7]), .has (PS.fit32 [1])] (init 1) s ∧
+    (match s.pc 0 with | .done (.chunk (.ok ch)) => ch.data = [7] | _ => False) ∧
+    (match s.pc 1 with | .done (.has false none) => True | _ => False) := by
+  let evs : List HEv := [.caller (.call 0), .caller (.call 1), .caller (.take 0), .caller (.send 0), .reply 0,
+    .caller (.recv 0), .caller (.put 0), .caller (.take 1), .caller (.send 1), .reply 1, .caller (.recv 1), .caller (.put 1)]
+  have key : ∀ (l : List HEv) (s0 s1 : State), HReachable exEnv [.get (PS.fit32 [7]), .has (PS.fit32 [1])] (init 1) s0 →
+      l.foldlM (hstep exEnv [.get (PS.fit32 [7]), .has (PS.fit32 [1])]) s0 = some s1 →
+      HReachable exEnv [.get (PS.fit32 [7]), .has (PS.fit32 [1])] (init 1) s1 := by
+    intro l
+    induction l with
+    | nil => intro s0 s1 h0 h; simp at h; subst h; exact h0
+    | cons e es ih =>
+      intro s0 s1 h0 h
+      simp only [List.foldlM_cons, Option.bind_eq_bind] at h
+      cases hs : hstep exEnv [.get (PS.fit32 [7]), .has (PS.fit32 [1])] s0 e with
+      | none => rw [hs] at h; cases h
+      | some s => rw [hs] at h; exact ih s s1 (.step h0 hs) h
+  cases hrun : evs.foldlM (hstep exEnv [.get (PS.fit32 [7]), .has (PS.fit32 [1])]) (init 1) with
+  | none => exact absurd hrun (by decide)
+  | some s =>
+    refine ⟨s, key evs _ _ .init hrun, ?_⟩
+    have : (evs.foldlM (hstep exEnv [.get (PS.fit32 [7]), .has (PS.fit32 [1])]) (init 1)).map
+        (fun s => (match s.pc 0 with | .done (.chunk (.ok ch)) => decide (ch.data = [7]) | _ => false) &&
+                  (match s.pc 1 with | .done (.has false none) => true | _ => false)) = some true := by decide
+    rw [hrun] at this
+    simp only [Option.map_some, Option.some.injEq, Bool.and_eq_true] at this
+    constructor
+    · have h1 := this.1; split at h1 <;> simp_all
+    · have h2 := this.2; split at h2 <;> simp_all
 
 end Desync.C14
 
